@@ -119,6 +119,9 @@ func c16(r *Report) propMeta {
 	r.Rule("C16.R9", "E9 writer/reader agreement of the index key")
 	c16KeyLayout(r)
 	_ = w
+	r.Rule("C16.R10", "store-key agreement: every point read/delete addresses a written key family")
+	r.StoreKeyAgreement("store-keys", "restake", 6, nil)
+
 	return propMeta{
 		Decided: []string{
 			"R1 Unstake pays out only past !isNeg(SafeSub) and isValidPower(total power read AFTER the stake record was rewritten); failing edges return errors",
@@ -130,6 +133,7 @@ func c16(r *Report) propMeta {
 			"R7 isValidPower iterates the by-power index in reverse and returns GTE(total, power) at the first entry whose vault is active, true only when exhausted",
 			"R8 Stake/Unstake move exactly the coins they record; Stake gated by AllowedDenoms",
 			"R9 index key writer and reader agree on the 8-byte big-endian power field at the same offset",
+			"R10 every KV-store Get/Has/Delete of x/restake uses a key builder of x/restake/types that some Set of the module also uses (a probe of an iteration prefix or of a sibling family is always-empty state)",
 		},
 		Undecided: []string{"module balance == sum of stakes over histories", "rounding in TokensFromSharesTruncated", "slashing"},
 		Assume:    []string{"staking module invokes the registered hooks and aborts on their error", "msg handlers atomic"},
